@@ -77,6 +77,27 @@ def run_case(ctx, res, p):
         res.oracle_fail(f"fit_predict raised {exc_class(e)}: {str(e)[:80]}", p, signature="C16:raises:" + exc_class(e))
         return
     res.case(canon, bool(np.any(np.abs(out - mu) > 1e-9)), sample)
+    # the same estimator object fitted again after its noise options were changed gives what a fresh estimator with those
+    # options gives (seeded change C16-g: a factor cached on the first fit kept the first fit's noise model)
+    import zlib
+    if p.get("refit", True) and (zlib.crc32(canon.encode()) % 4 == 0):      # a deterministic quarter of the cases
+        import jax.numpy as jnp
+        try:
+            s2v = 3.0 * sigma + 0.05 if np.ndim(sigma) == 0 else np.asarray(sigma, float) * 2.0 + 0.05
+            fresh = np.asarray(make_est(p, sigma=s2v, y_is_mean=False).fit_predict(X, Y, Xnew), float)
+            est2 = make_est(p)
+            est2.fit_predict(X, Y, Xnew)
+            est2.sigma = float(s2v) if np.ndim(s2v) == 0 else jnp.asarray(s2v)
+            est2.y_is_mean = False
+            again = np.asarray(est2.fit_predict(None, Y, Xnew), float)
+            res.count("refit_after_option_change")
+            if again.shape != fresh.shape or again.tobytes() != fresh.tobytes():
+                res.oracle_fail("an estimator fitted again after sigma / y_is_mean were changed differs from a fresh estimator "
+                                "with those options", p, detail={"max_abs_dev": float(np.max(np.abs(again - fresh)))},
+                                signature="C16:refit-option-change")
+        except Exception as e:
+            res.oracle_fail(f"refit after an option change raised {exc_class(e)}: {str(e)[:80]}", p,
+                            signature="C16:refit-option-change")
     # conditioning of the system actually solved
     basis = X2 if p["gp_type"] == "full" else np.asarray(p["Xu"], float)
     Kbb = cu.kernel_np(cov, basis, basis)
